@@ -576,8 +576,10 @@ where
         // add the new element in the qp vector as the last in the heap
         self.store.qp.push(Position(i));
         self.store.heap.push(Index(i));
-        self.bubble_up(Position(i), Index(i));
+        // the tables are consistent now: count the element before running
+        // comparisons that may panic
         self.store.size += 1;
+        self.bubble_up(Position(i), Index(i));
         None
     }
 
@@ -905,32 +907,46 @@ where
 
     fn bubble_up(&mut self, mut position: Position, map_position: Index) -> Position {
         let priority = self.store.map.get_index(map_position.0).unwrap().1;
+        // First find the final position: comparing runs user code that may
+        // panic, so the tables are not touched until all comparisons are done
+        let mut via_parent = false;
+        let mut target = position;
         if position.0 > 0 {
             let parent = parent(position);
             let parent_priority = unsafe { self.store.get_priority_from_position(parent) };
-            let parent_index = unsafe { *self.store.heap.get_unchecked(parent.0) };
-            position = match (level(position) % 2 == 0, parent_priority < priority) {
+            target = match (level(position) % 2 == 0, parent_priority < priority) {
                 // on a min level and greater then parent
                 (true, true) => {
-                    unsafe {
-                        *self.store.heap.get_unchecked_mut(position.0) = parent_index;
-                        *self.store.qp.get_unchecked_mut(parent_index.0) = position;
-                    }
-                    self.bubble_up_max(parent, map_position)
+                    via_parent = true;
+                    self.bubble_up_max(parent, priority)
                 }
                 // on a min level and less then parent
-                (true, false) => self.bubble_up_min(position, map_position),
+                (true, false) => self.bubble_up_min(position, priority),
                 // on a max level and greater then parent
-                (false, true) => self.bubble_up_max(position, map_position),
+                (false, true) => self.bubble_up_max(position, priority),
                 // on a max level and less then parent
                 (false, false) => {
-                    unsafe {
-                        *self.store.heap.get_unchecked_mut(position.0) = parent_index;
-                        *self.store.qp.get_unchecked_mut(parent_index.0) = position;
-                    }
-                    self.bubble_up_min(parent, map_position)
+                    via_parent = true;
+                    self.bubble_up_min(parent, priority)
                 }
             }
+        }
+
+        // then move the elements on the path down: the parent (when the
+        // element changes side), then the grand parents
+        while position != target {
+            let next = if via_parent {
+                via_parent = false;
+                parent(position)
+            } else {
+                parent(parent(position))
+            };
+            unsafe {
+                let next_index = *self.store.heap.get_unchecked(next.0);
+                *self.store.heap.get_unchecked_mut(position.0) = next_index;
+                *self.store.qp.get_unchecked_mut(next_index.0) = position;
+            }
+            position = next;
         }
 
         unsafe {
@@ -942,40 +958,28 @@ where
         position
     }
 
-    fn bubble_up_min(&mut self, mut position: Position, map_position: Index) -> Position {
-        let priority = self.store.map.get_index(map_position.0).unwrap().1;
-        let mut grand_parent = Position(0);
-        while if position.0 > 0 && parent(position).0 > 0 {
-            grand_parent = parent(parent(position));
-            (unsafe { self.store.get_priority_from_position(grand_parent) }) > priority
-        } else {
-            false
-        } {
-            unsafe {
-                let grand_parent_index = *self.store.heap.get_unchecked(grand_parent.0);
-                *self.store.heap.get_unchecked_mut(position.0) = grand_parent_index;
-                *self.store.qp.get_unchecked_mut(grand_parent_index.0) = position;
+    /// Find where an element with `priority` goes, moving up the min levels from `position`
+    fn bubble_up_min(&self, mut position: Position, priority: &P) -> Position {
+        while position.0 > 0 && parent(position).0 > 0 {
+            let grand_parent = parent(parent(position));
+            if (unsafe { self.store.get_priority_from_position(grand_parent) }) > priority {
+                position = grand_parent;
+            } else {
+                break;
             }
-            position = grand_parent;
         }
         position
     }
 
-    fn bubble_up_max(&mut self, mut position: Position, map_position: Index) -> Position {
-        let priority = self.store.map.get_index(map_position.0).unwrap().1;
-        let mut grand_parent = Position(0);
-        while if position.0 > 0 && parent(position).0 > 0 {
-            grand_parent = parent(parent(position));
-            (unsafe { self.store.get_priority_from_position(grand_parent) }) < priority
-        } else {
-            false
-        } {
-            unsafe {
-                let grand_parent_index = *self.store.heap.get_unchecked(grand_parent.0);
-                *self.store.heap.get_unchecked_mut(position.0) = grand_parent_index;
-                *self.store.qp.get_unchecked_mut(grand_parent_index.0) = position;
+    /// Find where an element with `priority` goes, moving up the max levels from `position`
+    fn bubble_up_max(&self, mut position: Position, priority: &P) -> Position {
+        while position.0 > 0 && parent(position).0 > 0 {
+            let grand_parent = parent(parent(position));
+            if (unsafe { self.store.get_priority_from_position(grand_parent) }) < priority {
+                position = grand_parent;
+            } else {
+                break;
             }
-            position = grand_parent;
         }
         position
     }
